@@ -128,6 +128,10 @@ func genC09(r *Rng, tier string) *c09W {
 		for _, f := range ixFields {
 			if r.Chance(80) {
 				w.Ops = append(w.Ops, ixOp{Op: "addField", Field: f})
+				if r.Chance(25) {
+					// registered twice before any document exists: registration is idempotent
+					w.Ops = append(w.Ops, ixOp{Op: "addField", Field: f})
+				}
 			}
 		}
 	}
